@@ -75,7 +75,8 @@ func parseConstraint(constraintStr string, ecosystem *Ecosystem) (*constraint, e
 		if err != nil {
 			return nil, fmt.Errorf("invalid version in caret constraint: %v", err)
 		}
-		return &constraint{operator: "^", version: parsedVersion, precision: 3}, nil
+		precision := countVersionComponents(version)
+		return &constraint{operator: "^", version: parsedVersion, precision: precision}, nil
 	}
 
 	// Handle tilde constraints: ~1.2.3, ~1.2, ~1
@@ -150,7 +151,7 @@ func convertWildcardToStandardConstraint(constraintStr string, ecosystem *Ecosys
 		if err != nil {
 			return nil, fmt.Errorf("invalid wildcard constraint: %v", err)
 		}
-		return &constraint{operator: "^", version: parsedVersion, precision: 3}, nil
+		return &constraint{operator: "^", version: parsedVersion, precision: 1}, nil
 
 	case 2: // 1.2.* is equivalent to ~1.2.0
 		normalizedVersion := normalizePartialVersion(baseVersion)
@@ -198,7 +199,7 @@ func satisfiesConstraint(version *Version, c *constraint) bool {
 	case "<=":
 		return version.Compare(c.version) <= 0
 	case "^":
-		return satisfiesCaretConstraint(version, c.version)
+		return satisfiesCaretConstraint(version, c.version, c.precision)
 	case "~":
 		return satisfiesTildeConstraint(version, c.version, c.precision)
 	default:
@@ -208,7 +209,7 @@ func satisfiesConstraint(version *Version, c *constraint) bool {
 
 // satisfiesCaretConstraint checks if version satisfies caret constraint (^1.2.3)
 // Caret allows changes that do not modify the left-most non-zero digit
-func satisfiesCaretConstraint(version, constraint *Version) bool {
+func satisfiesCaretConstraint(version, constraint *Version, precision int) bool {
 	// Must be >= constraint version
 	if version.Compare(constraint) < 0 {
 		return false
@@ -220,7 +221,8 @@ func satisfiesCaretConstraint(version, constraint *Version) bool {
 	}
 
 	// If major > 0, minor and patch can be anything >= constraint
-	if constraint.major > 0 {
+	// (^0 with only the major written is >=0.0.0 <1.0.0)
+	if constraint.major > 0 || precision == 1 {
 		return true
 	}
 
@@ -230,7 +232,8 @@ func satisfiesCaretConstraint(version, constraint *Version) bool {
 	}
 
 	// If major == 0 and minor > 0, patch can be anything >= constraint
-	if constraint.minor > 0 {
+	// (^0.0 with only major.minor written is >=0.0.0 <0.1.0)
+	if constraint.minor > 0 || precision == 2 {
 		return true
 	}
 
@@ -270,6 +273,10 @@ func satisfiesTildeConstraint(version, constraint *Version, precision int) bool 
 // normalizePartialVersion converts partial versions to full versions
 // e.g., "1.2" -> "1.2.0", "1" -> "1.0.0"
 func normalizePartialVersion(version string) string {
+	// A version with pre-release or build metadata is already complete
+	if strings.ContainsAny(version, "-+") {
+		return version
+	}
 	parts := strings.Split(version, ".")
 
 	// Ensure we have exactly 3 parts
